@@ -173,6 +173,15 @@ QuiescentEv(a) ==
     /\ ("must" \in DOMAIN a /\ a.must) => SyncResumes
     /\ ("mustTip" \in DOMAIN a /\ a.mustTip) => TipFollows(ToSet(a.tips))
 
+\* C16: the fetch tick sends exactly the requests it books (and books exactly what it sends)
+FetchTickSends(r) ==
+    LET bp == {m \in ToSet(r.out.sent) : m.kind = "GetBlocksProof"}
+        tp == {m \in ToSet(r.out.sent) : m.kind = "GetTransactionsProof"}
+    IN /\ \A m \in bp : pf'[m.to].bpr.on /\ ToSet(m.hashes) = Range(pf'[m.to].bpr.hs) /\ pf'[m.to].bpr # pf[m.to].bpr
+       /\ \A m \in tp : pf'[m.to].tpr.on /\ ToSet(m.hashes) = Range(pf'[m.to].tpr.hs) /\ pf'[m.to].tpr # pf[m.to].tpr
+       /\ \A q \in PeerNames : pf'[q].bpr # pf[q].bpr => \E m \in bp : m.to = q
+       /\ \A q \in PeerNames : pf'[q].tpr # pf[q].tpr => \E m \in tp : m.to = q
+
 Step(r) ==
     CASE r.ev = "Connect"    -> Connect(r.a.p) /\ PipeUnchangedNoFetch /\ TimeoutPeers({r.a.p})
       [] r.ev = "Disconnect" -> Disconnect(r.a.p) /\ PipeUnchangedNoFetch /\ TimeoutPeers({r.a.p}) /\ NoRequestsOf(r.a.p)
@@ -211,7 +220,7 @@ Step(r) ==
                                 /\ r.a.token = 2 => cached' = cached
       [] r.ev = "IdleTick"   -> UNCHANGED psCore /\ PipeUnchanged /\ IdleAsksComplete
       [] r.ev = "NoAnswer"   -> UNCHANGED psCore /\ PipeUnchanged
-      [] r.ev = "FetchTick"  -> FetchTick
+      [] r.ev = "FetchTick"  -> FetchTick /\ FetchTickReqRel /\ FetchTickSends(r)
       [] r.ev = "FetchTx"    -> RpcFetchTx(r.a.t, r.a.status, r.a.blk) /\ WrongBlockNote(r.a)
       [] r.ev = "GetTx"      -> RpcGetTx(r.a.t, r.a.status, r.a.blk) /\ WrongBlockNote(r.a)
       [] r.ev = "FetchHeader" -> RpcFetchHeader(r.a.b, r.a.status)
